@@ -39,6 +39,36 @@ pub struct Args {
     pub extra: Vec<String>,
 }
 
+// ---- watchdog: an implementation that never comes back from a case (a future that is never woken, a
+// stream that never ends, a loop) must not hang the check: after `VERIF_CASE_TIMEOUT` seconds (default 120)
+// without progress the engine writes `<out>/<engine>.hang` (the case it is in) and exits with code 3
+static PROGRESS: std::sync::Mutex<Option<(String, std::time::Instant, bool)>> = std::sync::Mutex::new(None);
+
+/// the engine is about to run `case`
+pub fn begin_case(case: &str) {
+    *PROGRESS.lock().unwrap() = Some((case.to_string(), std::time::Instant::now(), true));
+}
+fn end_case(case: &str) {
+    *PROGRESS.lock().unwrap() = Some((case.to_string(), std::time::Instant::now(), false));
+}
+pub fn start_watchdog(out: &PathBuf, engine: &str) {
+    let limit: u64 = std::env::var("VERIF_CASE_TIMEOUT").ok().and_then(|v| v.parse().ok()).unwrap_or(120);
+    let (out, engine) = (out.clone(), engine.to_string());
+    end_case("(start of the engine)");
+    std::thread::spawn(move || loop {
+        std::thread::sleep(std::time::Duration::from_millis(500));
+        let g = PROGRESS.lock().unwrap();
+        if let Some((case, at, running)) = &*g {
+            if at.elapsed().as_secs() >= limit {
+                let _ = std::fs::create_dir_all(&out);
+                let what = if *running { format!("in\t{case}") } else { format!("after\t{case}") };
+                let _ = std::fs::write(out.join(format!("{engine}.hang")), format!("{limit}\t{what}\n"));
+                std::process::exit(3);
+            }
+        }
+    });
+}
+
 /// One engine run writes `<out>/<name>.cases|impl|oracle|stats.json`.
 /// `cases`: protocol lines for the Lean driver; `impl`: one observation line per case line;
 /// `oracle`: one line per case, `ok` or `FAIL <why>` (implementation judged against the spec alone).
@@ -89,6 +119,7 @@ impl Sink {
     /// observation, `verdict` the implementation-side oracle (`None` = ok).
     pub fn case(&mut self, case: &str, obs: &str, verdict: Option<String>, nontrivial: bool) {
         debug_assert!(!case.contains('\n') && !obs.contains('\n'));
+        end_case(case);
         writeln!(self.cases, "{case}").unwrap();
         writeln!(self.imp, "{obs}").unwrap();
         match &verdict {
